@@ -13,11 +13,16 @@ programs (harness/gen_c08.py), printed from the same AST by the extracted printe
     wrong answers exactly; where Ref differs the known findings are the reason;
   * directed clause programs (positional, every argument count, interleaved statics, recursion and
     mutual recursion to depth 50, returned values at the type boundaries);
-  * a stream of gen_core programs (Ref vs main through harness/langrun.py).
+  * a stream of gen_core programs (Ref vs main through harness/langrun.py);
+  * CbCall family (coq/C08/Kinds.v, harness/gen_c08k.py): results, parameters, locals and statics of every kind (long int
+    bool string double float quad struct array reference void), plain functions, methods and calls through function
+    pointers, every exit of evaluate_function_call_impl (end of body, int64 return, re-thrown return, runtime error under
+    `try`): main == Ref(K); the extracted Mech(K) (statics under the current_function_name register) == Ref(K) as proved.
 """
 import collections
 import json
 import os
+import re
 import time
 
 import common
@@ -33,7 +38,8 @@ META = {
     "category": "proof",
     "technique": "Coq: theorems about the shared reference interpreter (generic state-relation induction, bracketed frame relation) + "
                  "a Mech model of find_variable / the call protocol with a simulation proof Mech = Ref under the name side condition and "
-                 "vm_compute witnesses without it; extracted Ref and Mech run differentially against main",
+                 "vm_compute witnesses without it + a second language (CbCall) with result / parameter kinds and the current_function_name "
+                 "register, whose restore policy is proved exact; extracted Ref and Mech of both run differentially against main",
     "text": "Ref (coq/Lang) gives every call a fresh frame: machine-checked for all programs, states and fuel are that every expression - hence "
             "every call, to any recursion depth, returning, failing or running out of fuel - restores the caller's frame stack exactly, that a "
             "running body never changes a frame below its own nor another function's statics and reads only its own frame, its statics and the "
@@ -43,18 +49,42 @@ META = {
             "callee's scope; static initialisers are re-evaluated): it is proved equal to Ref for every program whose local names are disjoint "
             "from the global/static names, whose arguments mention neither an earlier parameter of the callee nor a static and whose static "
             "initialisers are literals (unless Ref itself reports an unbound name), and refuted by concrete programs otherwise. Both models are "
-            "extracted and run against /repo's main on generated call graphs; Mech must predict main's deviations exactly.",
+            "extracted and run against /repo's main on generated call graphs; Mech must predict main's deviations exactly. "
+            "CbCall (Kinds.v) adds results, parameters, locals and statics of every kind, methods, pointer calls and `try`: a call saves the "
+            "current-function register, sets it, and restores it on each of the four exits of evaluate_function_call_impl (end of body, int64 "
+            "return, re-thrown non-integer return, runtime error). Machine-checked: every expression - a call of any kind through any exit, to "
+            "any depth - leaves the activation stack and the register exactly as they were; statics looked up under the register are the statics "
+            "of the running activation's function (Mech = Ref on all programs) if and only if no exit forgets its restore (each unsound policy, "
+            "the filed change C08-1 among them, is separated by a concrete program); statics are private, persistent and initialised once; the "
+            "returned value and positional binding hold for every kind.",
     "note": "Trusted: Coq kernel, no axioms (Print Assumptions closed); extraction + OCaml driver; Ref is the hand-written formal reading of the "
             "property; Mech is a hand-written model of manager.cpp:find_variable, static.cpp and call_impl.cpp's parameter loop, tied to the code by "
             "differential testing only. The refinement theorem is stated for Mech with lexical block scopes (blk=true); the extracted Mech run "
             "against main has one scope per activation (blk=false) - the two agree on the generated programs (checked), block scoping itself is "
-            "C01's finding. Function results and parameters of narrow types, arrays and pointers/references are outside the C08 generators "
-            "(all variables are long).",
+            "C01's finding. The core-language streams use long variables only; the CbCall stream treats a non-integer value as its payload "
+            "(string s<z>, <z>.5, struct member a / array element 0 = z) - that the surface forms printed by ocaml/c08_driver.ml mean these payloads "
+            "is trusted; CbCall has lexical lookup and is generated inside the name side condition (dynamic lookup is modelled on the core language "
+            "only). Reference / pointer parameters, function-pointer parameters, interface-typed parameters, impl statics, async, generics and "
+            "constructors are outside the C08 generators.",
 }
 
 
 # ------------------------------------------------------------------------------------------------
+def _bool_headed_ternary_store(node):
+    """a stored top-level ?: with a branch `L op R` whose LEFT operand is a comparison or a `!` (probed on the binary:
+    `v = c ? ((v >= 2) - v) : v` stores 1; `(..) + 0`, `v - (v >= 2)`, `(a && b) - v` are fine)"""
+    if not isinstance(node, list) or not node:
+        return False
+    if node[0] in ("asg", "decl", "ret") and isinstance(node[-1], list) and node[-1] and node[-1][0] == "cond":
+        for b in node[-1][2:4]:
+            if isinstance(b, list) and len(b) == 4 and b[0] == "bin" and isinstance(b[2], list) and b[2] and (
+                    (b[2][0] == "bin" and b[2][1] in ("<", "<=", ">", ">=", "==", "!=")) or (b[2][0] == "un" and b[2][1] == "!")):
+                return True
+    return any(_bool_headed_ternary_store(c) for c in node if isinstance(c, list))
+
+
 _MODEL_READY = []
+_TOP_TERNARY_STORE = re.compile(r"\((?:asg \(v \d+\)|asg \(idx [^()]*(?:\([^()]*\)[^()]*)*\)|decl \d \d \w+ \d+|ret) \(cond ")
 
 
 def model_run(sexprs, fuel=1500, timeout=600):
@@ -246,9 +276,17 @@ def run(rep):
 
     # gen_core programs with calls: Ref vs main through langrun
     core = []
+    skipped_ternary = 0
     for k in range(n_core):
         g = gen_core.Gen(rng_for(seed, "c08-core", k), gen_core.Opts(funcs=4, arrays=False, max_stmts=6))
-        core.append(g.program())
+        p = g.program()
+        if _TOP_TERNARY_STORE.search(p) and _bool_headed_ternary_store(langrun.parse(p)):
+            # finding C01-ternary-assign-bool-branch (a stored top-level ?: whose chosen branch is typed bool, e.g.
+            # `(a >= 2) - v`, is normalised to 0/1): C01's business, gen_core's own avoidance covers unary branches only;
+            # this stream is about calls and does without such statements
+            skipped_ternary += 1
+            continue
+        core.append(p)
     t0 = time.time()
     res, cbad = langrun.differential(impl, core)
     timing["core"] = round(time.time() - t0, 1)
@@ -260,6 +298,7 @@ def run(rep):
             if r["model"]["out"].strip() or r["model"]["expect"] != "finished":
                 nontriv += 1
     tags["gen_core"] = len(core)
+    tags["gen_core_skipped_top_level_ternary_store"] = skipped_ternary
 
     rep.coverage.update({
         "evaluations": evaluations, "distinct_nontrivial": nontriv,
@@ -340,7 +379,10 @@ def run(rep):
     rep.assumptions += [
         "programs on which the model reports Undef (signed 64-bit overflow of an intermediate) or runs out of fuel are not well-formed and are discarded (counted)",
         "lexical family: generated inside the side condition of dynamic_lookup_refines_lexical; reuse family: compared against Mech only (main is known to deviate from Ref there: known_findings/C08.json)",
-        "println arguments contain no calls (finding C01-println-retry); all variables are long (narrow parameter / result types belong to C04)",
+        "core-language streams: println arguments contain no calls (finding C01-println-retry), all variables are long (narrow parameter / result types belong to C04); "
+        "CbCall stream: calls appear in println arguments and conditions unless the callee can fail; it stays inside the name side condition and away from the "
+        "recorded findings (array result assigned, method on another receiver running to its end inside a method, floating statics, statics / errors / string "
+        "arguments through function pointers, reference results copied or handed back by methods)",
     ]
 
 
